@@ -117,9 +117,31 @@ def main():
             else:
                 ids.append(rest[i]); i += 1
         sweep(ids, tier)
+    elif a and a[0] == "table":
+        pass
     else:
         print(__doc__)
 
 
 if __name__ == "__main__":
     main()
+
+
+def table():
+    """markdown table of the corpus with the latest sweep verdicts"""
+    rows = []
+    for sid in sorted(os.listdir(SEEDED)):
+        d = os.path.join(SEEDED, sid)
+        if not os.path.isdir(d):
+            continue
+        m = json.load(open(os.path.join(d, "meta.json")))
+        first = (m.get("description_by_author", "").strip().splitlines() or [""])[0][:110]
+        res = m.get("sweep", {}).get("results", {})
+        verdict = ", ".join("%s: %s" % (c, v["verdict"]) for c, v in res.items()) or "not swept yet"
+        rows.append("| %s | %s | %s |" % (sid, first.replace("|", "/"), verdict))
+    print("| id | author's first line | quick-tier verdict per check |\n|---|---|---|")
+    print("\n".join(rows))
+
+
+if __name__ == "__main__" and len(sys.argv) > 1 and sys.argv[1] == "table":
+    table()
